@@ -50,6 +50,10 @@ def payloads(rng, tier):
     for i in range(n):
         yield "history", {"seed": rng.randrange(1 << 30), "length": rng.randint(6, mx), "fresh": i % 5 == 0,
                           "k": rng.choice([1, 2, 2, 3])}
+    # long messages with progress output off and on (CPython's int <-> str digit limit lowered to its minimum around the calls)
+    for fn in {"quick": ["bit_to_number", "encode"], "thorough": ["bit_to_number", "encode", "encode_fast", "bit_to_number", "encode"],
+               "search": ["bit_to_number", "encode"]}[tier]:
+        yield "verbose_pair", {"fn": fn, "L": rng.choice([2200, 2400, 2600]), "k": 1, "seed": rng.randrange(1 << 30)}
 
 
 def snapshot(objs):
@@ -271,7 +275,79 @@ def run_history(p, check_verbose=True):
     return answers, lines, problems
 
 
+class strict_int_str(object):
+    """CPython's limit on int <-> str conversions at its minimum (640 digits instead of 4300) around library calls only: a
+    conversion of a long message through int()/str() then fails at 2127 bits instead of 14285 -- same behaviour, cheaper to reach"""
+    def __enter__(self):
+        self.old = sys.get_int_max_str_digits() if hasattr(sys, "get_int_max_str_digits") else None
+        if self.old is not None:
+            sys.set_int_max_str_digits(640)
+
+    def __exit__(self, *a):
+        if self.old is not None:
+            sys.set_int_max_str_digits(self.old)
+
+
+def outcome(f):
+    try:
+        with strict_int_str():
+            r = f()
+        return ("ok", r)
+    except Budget:
+        raise
+    except Exception as e:  # noqa
+        return ("raise", type(e).__name__)
+
+
+def build_verbose_pair(stream, p):
+    """one verbose-capable call on LONG arguments, with progress output off and on: same outcome (value or exception class)"""
+    def run():
+        import random
+        rng = random.Random(p["seed"])
+        bits = np.array([1] + [rng.randint(0, 1) for _ in range(p["L"] - 1)], dtype=int)
+        acc = gen.acc_array(gen.complete(p["k"]))
+        problems = []
+
+        def both(name, f, canon):
+            a = outcome(lambda: f(False))
+            buf = io.StringIO()
+            with contextlib.redirect_stdout(buf):
+                b = outcome(lambda: f(True))
+            ca = (a[0], canon(a[1]) if a[0] == "ok" else a[1])
+            cb = (b[0], canon(b[1]) if b[0] == "ok" else b[1])
+            if ca != cb:
+                problems.append("%s on a %d-bit message: verbose=False gives %s, verbose=True gives %s"
+                                % (name, p["L"], str(ca)[:80], str(cb)[:80]))
+            return a
+        if p["fn"] == "bit_to_number":
+            both("bit_to_number(is_string=True)", lambda v: dsw.bit_to_number(bits, is_string=True, verbose=v), str)
+            both("bit_to_number(is_string=False)", lambda v: dsw.bit_to_number(bits, is_string=False, verbose=v), lambda r: str(int(r) % 1000003))
+        else:
+            fast = p["fn"] == "encode_fast"
+            e = both(p["fn"], lambda v: dsw.encode(bits, acc, 0, is_faster=fast, verbose=v), str)
+            if e[0] == "ok":
+                both("decode", lambda v: dsw.decode(e[1], len(bits), acc, 0, is_faster=fast, verbose=v),
+                     lambda r: "".join(str(int(x)) for x in r))
+        return problems
+    box = {}
+
+    def impl():
+        a, raw = guard(run, lambda r: [[len(r)]], seconds=600)
+        box["problems"] = raw if isinstance(raw, list) else []
+        return a, raw
+
+    def oracle(ans, raw):
+        if isinstance(raw, BaseException):
+            return "raised outside a call: %r" % (raw,)
+        return raw[0] if raw else None
+    case = Case(stream, p, None, impl, oracle, domain=True, nontrivial=True, tags=["verbose_pair", "fn=" + p["fn"]])
+    case.box = box
+    return case
+
+
 def build(stream, p):
+    if stream == "verbose_pair":
+        return build_verbose_pair(stream, p)
     box = {}
 
     def run():
